@@ -419,7 +419,7 @@ def main_mc(ctx, pid, bugs, persist):
 def coverage(rows):
     cov = {"mounts_ok": 0, "mounts_refused": 0, "overmounts": 0, "root_mounts": 0, "nested_mounts": 0, "umounts": 0, "wraparounds": 0,
            "table_full": 0, "requests": 0, "vacant_slot_requests": 0, "pseudo_requests": 0, "cross_mount_two_inode": 0,
-           "mountpoint_lookups": 0, "with_own_mapping": 0, "with_global_mapping": 0, "saverestore": 0, "saverestore_v1": 0, "saved_after_wrap_with_mapping_above_next_super": 0, "remounts_in_place": 0, "mounts_refused_backend_init": 0, "overmounts_refused_backend_init": 0, "inits_refused_by_backend": 0,
+           "mountpoint_lookups": 0, "with_own_mapping": 0, "with_global_mapping": 0, "saverestore": 0, "saverestore_v1": 0, "saved_after_wrap_with_mapping_above_next_super": 0, "saved_with_empty_pseudo_fs_after_allocations": 0, "remounts_in_place": 0, "mounts_refused_backend_init": 0, "overmounts_refused_backend_init": 0, "inits_refused_by_backend": 0,
            "with_own_empty_range_mapping": 0, "with_own_empty_range_mapping_under_global": 0,
            "requests_on_empty_range_mount_under_global": 0,
            "requests_after_remount": 0, "umounts_refused": 0, "umounts_refused_with_remove_pseudo_root": 0, "umounts_with_remove_pseudo_root": 0, "ops": {}}
@@ -429,10 +429,12 @@ def coverage(rows):
     gm = False
     wrapped, nexts, mapped = False, 1, {}
     rm, remounted, emptyown = False, set(), set()
+    npseudo_made, pseudo_live = 0, 0
     for r in rows:
         e = r.get("e")
         if e == "Reset":
             rm = bool(r["opts"].get("remove_pseudo_root"))
+            npseudo_made, pseudo_live = 0, 0
             remounted = set()
             emptyown = set()
             mounted = {}
@@ -449,6 +451,9 @@ def coverage(rows):
                 p = "/" + "/".join(c for c in r["comps"] if c not in ("", "."))
                 if p in mounted:
                     cov["overmounts"] += 1
+                elif p != "/":
+                    npseudo_made += 1
+                    pseudo_live += p.count("/")        # directories made on the way
                 if p == "/":
                     cov["root_mounts"] += 1
                 if any(p.startswith(q + "/") for q in mounted if q != "/"):
@@ -495,10 +500,13 @@ def coverage(rows):
             cov["umounts"] += 1
             if rm:
                 cov["umounts_with_remove_pseudo_root"] += 1
+                pseudo_live -= 1                       # the mount point's directory goes, its parents stay
             mounted.pop("/" + "/".join(c for c in r["comps"] if c not in ("", ".")), None)
             mapped.pop("/" + "/".join(c for c in r["comps"] if c not in ("", ".")), None)
         elif e == "SaveRestore" and r.get("ret") == "ok":
             cov["saverestore"] += 1
+            if rm and npseudo_made > 0 and not [q for q in mounted if q != "/"] and pseudo_live == 0:
+                cov["saved_with_empty_pseudo_fs_after_allocations"] += 1
             if wrapped and any(i >= nexts for i in mapped.values()):
                 cov["saved_after_wrap_with_mapping_above_next_super"] += 1
             if r.get("version") == 1:
@@ -837,6 +845,18 @@ def run_c19(ctx):
                         {"op": "mount", "path": "/r", "b": "b1", "m": NOMAP, "init_fail": True}, {"op": "mount", "path": "/r", "b": "b1", "m": NOMAP}]}
         scs += persist_variants(v1, pair, cuts=[2, 4, 6, 8], ver=1)
         pair += 1
+        # directed: set_remove_pseudo_root(), every mount unmounted before the save: the pseudo file system is empty but has
+        # handed out numbers; directories made after the restore must get the numbers the unsaved instance gives them
+        for tag, pre in (("empty-pseudo-saved", []), ("empty-pseudo-root-mounted-saved", [{"op": "mount", "path": "/", "b": "b2", "m": NOMAP}])):
+            post = [{"op": "umount", "path": "/"}] if pre else []
+            ep = {"id": tag, "src": "directed", "kind": "plain", "seed": ctx.seed * 7 + 3, "g": {"i": 0, "e": 0, "r": 0}, "scale": 1,
+                  "autoprobe": 1, "paths": ["/p/q", "/s"], "opts": {"no_open": False, "no_opendir": False, "remove_pseudo_root": True},
+                  "steps": [{"op": "mount", "path": "/a", "b": "b1", "m": NOMAP}, {"op": "mount", "path": "/b", "b": "b2", "m": NOMAP},
+                            {"op": "umount", "path": "/a"}, {"op": "umount", "path": "/b"}] + pre + post +
+                           [{"op": "mount", "path": "/p/q", "b": "b1", "m": NOMAP}, {"op": "mount", "path": "/s", "b": "b2", "m": NOMAP},
+                            {"op": "umount", "path": "/p/q"}, {"op": "mount", "path": "/p/t", "b": "b1", "m": NOMAP}]}
+            scs += persist_variants(ep, pair, cuts=[2, 4, 4 + len(pre), 6 + len(pre) + len(post)])
+            pair += 1
         # seeded histories, a few cuts each
         rnd = gen_random(ctx, bd, abi, 1 if quick else 4, 100 if quick else 300, "churn", "c19")
         rnd1 = gen_random(ctx, bd, abi, 1 if quick else 2, 60 if quick else 200, "nomap", "c19n")
@@ -863,7 +883,7 @@ def run_c19(ctx):
         note_drift(ctx, drifts, rows, "c19")
         cov = coverage(rows)
         gate(ctx, cov, ["saverestore", "saverestore_v1", "mounts_ok", "umounts", "with_own_mapping", "saved_after_wrap_with_mapping_above_next_super",
-                        "remounts_in_place"])
+                        "remounts_in_place", "saved_with_empty_pseudo_fs_after_allocations"])
         skipped = sum(1 for x in rows if x.get("e") == "SaveRestore" and x.get("ret") == "skipped")
 
         def mut(bad):
